@@ -266,6 +266,21 @@ CLAIMED = {
              "the same instance.",
         note="Pretty-mode bodies are matched by the library's message text; traceback text of parse errors is not compared.",
         design="5 C19"),
+    "C20": dict(
+        technique="TLA+ Registry!ValidatorFor with registration actions; TLC enumerates registration sequences x $schema spellings "
+                  "x defaults (MC_C20: ExistingKept, LaterSelectable) and exports the selected class; replayed with real "
+                  "registrations, validator_for, jsonschema.validate and the CLI on draft-discriminating pairs",
+        text="Selection is a function of the registry state in the specification; TLC explores every sequence of later "
+             "registrations under fresh ids and every spelling of $schema (registered ids with and without a trailing '#', "
+             "with a non-empty fragment, unknown and non-URI strings, absent, boolean schemas) with both defaults, checks "
+             "that existing registrations are never disturbed and later classes become selectable, and exports the selected "
+             "class and whether a DeprecationWarning is due. The replay performs the registrations on the real global "
+             "registries (restored afterwards), calls validator_for with warnings captured, and requires "
+             "jsonschema.validate -- and the CLI for a sample -- to behave exactly as the selected class on eleven (schema, "
+             "instance) pairs on which the drafts disagree, and an explicitly given class to win.",
+        note="Re-registering an already registered id replaces the entry (by design of the library); the property speaks of "
+             "fresh ids only and the model registers fresh ids only.",
+        design="5 C20"),
 }
 
 PENDING_REASON = "check not built yet in this round (framework under construction; DESIGN.md section 8 build order)"
